@@ -7,6 +7,8 @@ package subs
 
 import (
 	"bytes"
+	"crypto/sha256"
+	"encoding/hex"
 	"fmt"
 	"time"
 
@@ -270,4 +272,119 @@ func CompareLoose(got, want *chaingen.Ledger) string {
 		return "elements differ:\n" + firstDiff(g, w)
 	}
 	return ""
+}
+
+// DigestChunk is a canonical digest of everything a chunk hands to a subscriber:
+// blocks, states, element diffs with leaf indices and Merkle proofs.
+func DigestChunk(rus []chain.RevertUpdate, aus []chain.ApplyUpdate) string {
+	h := sha256.New()
+	e := types.NewEncoder(h)
+	diffs := func(sc []consensus.SiacoinElementDiff, sf []consensus.SiafundElementDiff, fc []consensus.FileContractElementDiff, v2 []consensus.V2FileContractElementDiff) {
+		for _, d := range sc {
+			d.SiacoinElement.EncodeTo(e)
+			e.WriteBool(d.Created)
+			e.WriteBool(d.Spent)
+		}
+		for _, d := range sf {
+			d.SiafundElement.EncodeTo(e)
+			e.WriteBool(d.Created)
+			e.WriteBool(d.Spent)
+		}
+		for _, d := range fc {
+			d.FileContractElement.EncodeTo(e)
+			e.WriteBool(d.Created)
+			e.WriteBool(d.Resolved)
+			e.WriteBool(d.Valid)
+			e.WriteBool(d.Revision != nil)
+			if d.Revision != nil {
+				d.Revision.EncodeTo(e)
+			}
+		}
+		for _, d := range v2 {
+			d.V2FileContractElement.EncodeTo(e)
+			e.WriteBool(d.Created)
+			e.WriteBool(d.Revision != nil)
+			if d.Revision != nil {
+				d.Revision.EncodeTo(e)
+			}
+			e.WriteBool(d.Resolution != nil)
+		}
+	}
+	for _, ru := range rus {
+		e.WriteString("revert")
+		types.V2Block(ru.Block).EncodeTo(e)
+		ru.State.EncodeTo(e)
+		diffs(ru.SiacoinElementDiffs(), ru.SiafundElementDiffs(), ru.FileContractElementDiffs(), ru.V2FileContractElementDiffs())
+	}
+	for _, au := range aus {
+		e.WriteString("apply")
+		types.V2Block(au.Block).EncodeTo(e)
+		au.State.EncodeTo(e)
+		diffs(au.SiacoinElementDiffs(), au.SiafundElementDiffs(), au.FileContractElementDiffs(), au.V2FileContractElementDiffs())
+		cie := au.ChainIndexElement()
+		cie.EncodeTo(e)
+	}
+	e.Flush()
+	return hex.EncodeToString(h.Sum(nil))
+}
+
+// Scribble overwrites what a chunk handed out, as a careless subscriber may: proofs, values and
+// addresses in the element diffs, payouts and arbitrary data in the blocks. Whatever the manager
+// hands to the next caller must not be affected.
+func Scribble(rus []chain.RevertUpdate, aus []chain.ApplyUpdate) {
+	sc := func(ds []consensus.SiacoinElementDiff) {
+		for i := range ds {
+			for j := range ds[i].SiacoinElement.StateElement.MerkleProof {
+				ds[i].SiacoinElement.StateElement.MerkleProof[j][0] ^= 0xFF
+			}
+			ds[i].SiacoinElement.SiacoinOutput.Value = types.ZeroCurrency
+			ds[i].SiacoinElement.SiacoinOutput.Address[0] ^= 0xFF
+			ds[i].SiacoinElement.StateElement.LeafIndex ^= 1
+		}
+	}
+	sf := func(ds []consensus.SiafundElementDiff) {
+		for i := range ds {
+			for j := range ds[i].SiafundElement.StateElement.MerkleProof {
+				ds[i].SiafundElement.StateElement.MerkleProof[j][0] ^= 0xFF
+			}
+			ds[i].SiafundElement.SiafundOutput.Value++
+		}
+	}
+	blk := func(b *types.Block) {
+		for i := range b.MinerPayouts {
+			b.MinerPayouts[i].Address[0] ^= 0xFF
+		}
+		for i := range b.Transactions {
+			for j := range b.Transactions[i].SiacoinOutputs {
+				b.Transactions[i].SiacoinOutputs[j].Value = types.ZeroCurrency
+			}
+			for j := range b.Transactions[i].Signatures {
+				for k := range b.Transactions[i].Signatures[j].Signature {
+					b.Transactions[i].Signatures[j].Signature[k] ^= 0xFF
+				}
+			}
+		}
+		if b.V2 != nil {
+			for i := range b.V2.Transactions {
+				for j := range b.V2.Transactions[i].SiacoinOutputs {
+					b.V2.Transactions[i].SiacoinOutputs[j].Value = types.ZeroCurrency
+				}
+				for j := range b.V2.Transactions[i].SiacoinInputs {
+					for k := range b.V2.Transactions[i].SiacoinInputs[j].Parent.StateElement.MerkleProof {
+						b.V2.Transactions[i].SiacoinInputs[j].Parent.StateElement.MerkleProof[k][0] ^= 0xFF
+					}
+				}
+			}
+		}
+	}
+	for i := range rus {
+		sc(rus[i].SiacoinElementDiffs())
+		sf(rus[i].SiafundElementDiffs())
+		blk(&rus[i].Block)
+	}
+	for i := range aus {
+		sc(aus[i].SiacoinElementDiffs())
+		sf(aus[i].SiafundElementDiffs())
+		blk(&aus[i].Block)
+	}
 }
